@@ -11,14 +11,14 @@ import (
 func init() {
 	register(&Check{
 		ID: "C15", Level: "exploration", QuickSecs: 150, ThoroughSecs: 900,
-		Rule:        "ALL character classes made of 1..K items (quick K=3, thorough K=4) from {a,Z,_,0,é,a-c,X-b,@-Z,0-é,\\pL,\\p{Nd},\\p{Latin},\\],\\p{Lu},U+212A KELVIN SIGN,U+0100-U+0200,!-U+00FF} x inverted x ignore-case, eight classes per grammar (one rule each, selected with Entrypoint); inputs: each of the 128 Basic Latin runes, é, É, ǅ, U+FFFD (valid encoding), the invalid byte 0xFF (AllowInvalidUTF8) and the empty input. For every (class, input): parser generated with -optimize-basic-latin vs parser generated without it (real vs real), both also against the reference class semantics (member iff some element of the class equals the rune, under simple case folding when i; ^ complements; EOF never matches). Non-trivial = the class matches the rune (table entry true) or the class is case-insensitive.",
+		Rule:        "ALL character classes made of 1..K items (quick K=3, thorough K=4) from {a,Z,_,0,é,a-c,X-b,@-Z,0-é,\\pL,\\p{Nd},\\p{Latin},\\],\\p{Lu},U+212A KELVIN SIGN,U+0100-U+0200,!-U+00FF,l-K(U+212A),j-U+0130,!-_,U+00D7-U+00F7,k,i-k} x inverted x ignore-case, eight classes per grammar (one rule each, selected with Entrypoint); inputs: each of the 128 Basic Latin runes, every rune U+0080..U+024F, KELVIN SIGN U+212A, ANGSTROM SIGN U+212B, U+FFFD (valid encoding), the invalid byte 0xFF (AllowInvalidUTF8) and the empty input. For every (class, input): parser generated with -optimize-basic-latin vs parser generated without it (real vs real), both also against the reference class semantics (member iff some element of the class equals the rune, under simple case folding when i; ^ complements; EOF never matches). Non-trivial = the class matches the rune (table entry true) or the class is case-insensitive.",
 		Assumptions: []string{"E1 loader", "reference class semantics for i = simple case folding of both sides"},
 		Run:         runC15,
 	})
 }
 
 func classItems() []string {
-	return []string{"a", "Z", "_", "0", "é", "a-c", "X-b", "@-Z", "0-é", `\pL`, `\p{Nd}`, `\p{Latin}`, "]", `\p{Lu}`, "K", "Ā-Ȁ", "!-ÿ", "l-K", "j-İ", "!-_", "×-÷"}
+	return []string{"a", "Z", "_", "0", "é", "a-c", "X-b", "@-Z", "0-é", `\pL`, `\p{Nd}`, `\p{Latin}`, "]", `\p{Lu}`, "K", "Ā-Ȁ", "!-ÿ", "l-K", "j-İ", "!-_", "×-÷", "k", "i-k"}
 }
 
 func runC15(c *ShardCtx) {
@@ -55,6 +55,14 @@ func runC15(c *ShardCtx) {
 		inputs = append(inputs, []byte{byte(r)})
 	}
 	inputs = append(inputs, []byte("é"), []byte("É"), []byte("ǅ"), []byte("�"), []byte{0xff}, []byte{})
+	// every rune of Latin-1 Supplement .. Latin Extended-B, and the runes outside Basic Latin
+	// whose case orbit reaches into it (KELVIN SIGN, dotted capital I, dotless i, long s)
+	for r := rune(0x80); r < 0x250; r++ {
+		if r != 'é' && r != 'É' && r != 'ǅ' {
+			inputs = append(inputs, []byte(string(r)))
+		}
+	}
+	inputs = append(inputs, []byte("\u212a"), []byte("\u212b"))
 	const per = 8
 	idx := 0
 	for i := 0; i < len(classes); i += per {
